@@ -13,8 +13,8 @@ CHECKS = {
    ref='7 (C01)'),
  'C02': dict(
    cat='proof',
-   text='Theorems over the regenerated Disk.put/get: for every pair of keys in the domain, the UNIQUE(key, raw) index identifies them iff they are equal under the documented rule (exact int/float comparison, str/bytes by content, everything else by serialised form, native never equal to serialised); get(put k) = k; JSONDisk identity = JSON text (1 vs 1.0 refuted = finding C02-F1). Tie: translator + model-vs-database comparison on enumerated pairs + pair monitor (len, membership, get, iteration).',
-   note='Trusted: Coq kernel; hand-written SQLite comparison model (storage classes, exact int/real order, memcmp) validated on every pair; injectivity of optimised pickle as a premise. Table-level clauses (no shadowing through set/get, iteration order) are checked by the monitor here and proved in C03.',
+   text='Theorems over the regenerated Disk.put/get: for every pair of keys in the domain, the UNIQUE(key, raw) index identifies them iff they are equal under the documented rule (exact int/float comparison, str/bytes by content, everything else by serialised form, native never equal to serialised); get(put k) = k; the domain excludes only unencodable text and streams: float NaN is one key, distinct from every other key (Disk.put pickles it since the repair of the former finding C02-F2), and put never yields a NULL or REAL-NaN database key for any key and codec; key-ordered iteration lists every (key, raw) pair exactly once in strict key order for every table without NULL keys, hence for every state satisfying the invariant and every state reachable from the empty cache (no hypothesis on the keys); JSONDisk identity = JSON text (1 vs 1.0 refuted = finding C02-F1). Tie: translator + model-vs-database comparison on enumerated pairs + pair monitor (len, membership, get, iteration).',
+   note='Trusted: Coq kernel; hand-written SQLite comparison model (storage classes, exact int/real order, memcmp) validated on every pair; injectivity of optimised pickle as a premise. Table-level clauses (no shadowing through set/get, iteration order) are checked by the monitor here and proved in C03. The model has one NaN: float("nan"); a NaN with another sign bit or payload pickles differently under protocols >= 1 and is then another key (outside alphabet and model). The witness of the former finding C02-F2 is a regression input of the monitor.',
    tech='Coq proof (case analysis over key classes) + generated model + exhaustive pair enumeration',
    ref='7 (C02)'),
  'C04': dict(
@@ -74,7 +74,7 @@ CHECKS = {
  'C03': dict(
    cat='proof',
    text='Row-level theorems for every reachable state, configuration, clock value and volume oracle: rowids strictly ascending for every history (insertion order = iteration order, replacing keeps the position), count = number of rows, and the removal clause: the lazy cull removes only passed rows or, under an evicting policy, rows once volume >= size_limit; set removes no other key except through that cull; get/contains/touch remove nothing; delete/pop remove exactly the one live item their key addresses. The whole-state dictionary laws are proved for every state satisfying the invariant Sinv (rowids ascending and positive, keys unique, file references unique/resolving/of the recorded size, no orphan file, counters), which is proved for every history from the empty cache: get-after-set (value, expiry, tag; or removed by the own cull of that write), no shadowing between distinct keys (set/delete/pop/touch/incr), absent after delete/pop, add = set on an absent or dead key, incr after set, iteration = insertion order for every table size with len = number of rows, set keeps the position of an existing key and appends a new one. Lookup clauses are C04, value/key clauses C01/C02. Tie: SQL/guard translator with bridge lemmas + three-way differential run (implementation, plain-Python reference dictionary, Coq row model) with the table compared after every call, exhaustive short sequences and histories crossing the 100-row page size.',
-   note='Trusted: Coq kernel; relational SQL model; control skeleton of Cache.v pinned by translator templates and validated after every call. The exact (non-disjunctive) forms of get-after-set/no-shadowing assume cull_limit = 0 (the lazy cull really can remove an expired or evicted item of another key; the general forms carry that disjunct). Sinv for histories containing push assumes the pushed key is fresh (queue key theory: C10). iterkeys (sorted order) is monitored, not proved. incr on float values is outside the model (kept out of generated histories).',
+   note='Trusted: Coq kernel; relational SQL model; control skeleton of Cache.v pinned by translator templates and validated after every call. The exact (non-disjunctive) forms of get-after-set/no-shadowing assume cull_limit = 0 (the lazy cull really can remove an expired or evicted item of another key; the general forms carry that disjunct). Sinv for histories containing push assumes the pushed key is fresh (queue key theory: C10). iterkeys lists the table in ORDER BY key, raw for every state satisfying Sinv and every reachable state: "no NULL key" is a clause of Sinv since the repair of the former finding C03-F1 (Disk.put no longer binds a float NaN key as NULL); the table-level statement keeps the clause as a hypothesis and a table with NULL keys refutes the statement without it; the witness history of C03-F1 is a directed three-way history. incr on float values is outside the model (kept out of generated histories).',
    tech='Coq proof (generic invariant closure over operation skeletons, bridge lemmas, rowid uniqueness) + generated model + three-way differential testing',
    ref='7 (C03)'),
  'C09': dict(
@@ -92,7 +92,7 @@ CHECKS = {
  'C18': dict(
    cat='proof',
    text='Format-frozen theorem (generated on-disk format data: schema DDL, settings, file layout, queue-key constants, shard directory format, plus the Disk put/store/fetch/hash decision trees = hand-frozen copy of release 5.6.3), settings-merge theorems for all dictionaries (given > stored > defaults, idempotent reopen), the same for every shard of a FanoutCache and every setting incl. size_limit (existing shard opened without size_limit keeps the stored limit, new shard gets default/shards, given limit divided and stored; the former finding C18-F1, repaired in 3d346b2, is kept as a refutation of the RELEASED size_limit rule, and the format-frozen theorem states that one recorded difference explicitly), handle state round trip. Partial: cross-handle/thread/fork/process visibility and "every operation depends only on directory state" are exercised (reference-dictionary monitor over histories with close/reopen/pickle/copy/thread/fork/new-process events for Cache, FanoutCache, Deque, Index, DjangoCache; golden directory written by the pinned version read back) not proved.',
-   note='Trusted: Coq kernel; translator; the frozen decision trees include the two recorded value-path fixes (NaN -> pickle, newline=""), which do not change how existing files are read on POSIX; process/fork/thread behaviour of SQLite and CPython.',
+   note='Trusted: Coq kernel; translator; the frozen decision trees include the two recorded value-path fixes (NaN -> pickle, newline=""), which do not change how existing files are read on POSIX; the key path differs from the frozen copy at exactly one key, stated in the theorem (a float NaN key is pickled, the released put bound it as NULL; every other key gets the released database key: C18_put_compatible), so rows the released code stored under NaN stay unreachable by key as they were; process/fork/thread behaviour of SQLite and CPython.',
    tech='Coq (reflexivity/vm_compute + list lemmas) + AST translator + golden fixture + differential testing of the settings merge',
    ref='7 (C18)'),
  'C10': dict(
